@@ -45,8 +45,8 @@ InRefNamed(S, cfg, tg, n, v) ==
   IF ~HasType(S, n) THEN FALSE
   ELSE CASE KindOf(S, n) = "scalar" -> ScalarKnown(cfg, n) /\ Member(v, ScalarTsFor(cfg, tg, n), GlobalEnv, GlobalScope, 6)
          [] KindOf(S, n) = "enum" -> v.k = "str" /\ v.s \in EnumValueNames(S, n)
-         [] KindOf(S, n) \in {"object", "interface", "union"} -> ~IsInputTarget(tg) /\ v.k = "inst" /\ v.n \in PossibleTypes(S, n)
-         [] KindOf(S, n) = "input" -> IsInputTarget(tg) /\ v.k = "inst" /\ v.n = n
+         [] KindOf(S, n) \in {"object", "interface", "union"} -> ~IsInputTarget(tg) /\ v.k = "inst" /\ v.n \in PossibleTypes(S, n) /\ v.tg = tg
+         [] KindOf(S, n) = "input" -> IsInputTarget(tg) /\ v.k = "inst" /\ v.n = n /\ v.tg = tg
 InRefPos(S, cfg, tg, ty, v) ==
   IF ty.k = "nn" THEN v.k \notin {"null", "undef"} /\ InRefPos(S, cfg, tg, ty.of, v)
   ELSE IF v.k = "null" THEN TRUE
@@ -61,7 +61,7 @@ InRefAlias(S, cfg, tg, n, v) ==
   CASE d.k \in {"scalar", "enum"} -> InRefNamed(S, cfg, tg, n, v)
     [] d.k = "object" -> /\ v.k = "rec" /\ Read(v, "__typename").k = "str" /\ Read(v, "__typename").s = n
                          /\ \A i \in DOMAIN d.fields : InRefPos(S, cfg, tg, d.fields[i].type, Read(v, d.fields[i].name))
-    [] d.k \in {"interface", "union"} -> v.k = "inst" /\ v.n \in PossibleTypes(S, n)
+    [] d.k \in {"interface", "union"} -> v.k = "inst" /\ v.n \in PossibleTypes(S, n) /\ v.tg = tg
     [] d.k = "input" -> v.k = "rec" /\ \A i \in DOMAIN d.inputFields :
                           LET x == Read(v, d.inputFields[i].name) IN
                           (x.k = "undef" /\ OptionalInput(cfg, d.inputFields[i])) \/ InRefPos(S, cfg, tg, d.inputFields[i].type, x)
@@ -97,7 +97,8 @@ Atoms(S, cfg) ==
   \cup {VStr(x) : x \in UNION {LitsIn(t) : t \in CfgTypes(cfg)}}
   \cup {VGlob(g) : g \in UNION {GlobalsIn(t) : t \in CfgTypes(cfg)}}
   \cup {VRaw(r) : r \in UNION {RawsIn(t) : t \in CfgTypes(cfg)}}
-  \cup {VInst(n) : n \in {m \in TypeNames(S) : KindOf(S, m) \in {"object", "input"}}} \cup {VInst("$none")}
+  \cup {VInstT(n, tg) : n \in {m \in TypeNames(S) : KindOf(S, m) \in {"object", "input"}}, tg \in Targets} \cup {VInst("$none")}
+(* an instance atom names the TARGET whose declaration it instantiates: the same type has a different denotation per target (scalars) *)
 (* no record is an atom: under the one-level abstraction a position of object / input object type holds inst atoms only *)
 
 RECURSIVE CandsD(_, _)
@@ -267,7 +268,7 @@ ResolversItems(S, cfg, env, excluded) ==
                          THEN {Item("type-resolver-missing", "Resolvers does not require a type resolver for an abstract type", [ctx |-> <<"Resolvers", a>>])}
                          ELSE LET t == ObjField(ObjField(body, a).t, "__resolveType").t ctx == <<"Resolvers", a, "__resolveType">> IN
                               IF ~IsRefTo(t, "__TypeResolver", 3) THEN {Item("resolver-shape", "a type resolver is not a __TypeResolver<Obj, Context, Result>", [ctx |-> ctx])}
-                              ELSE Compare(A, LAMBDA v : Member(v, t.args[1], env, sc, 12), LAMBDA v : v.k = "inst" /\ v.n \in PossibleTypes(S, a), "type-resolver-object", ctx)
+                              ELSE Compare(A, LAMBDA v : Member(v, t.args[1], env, sc, 12), LAMBDA v : v.k = "inst" /\ v.n \in PossibleTypes(S, a) /\ v.tg = "ResolverOutput", "type-resolver-object", ctx)
                                    \cup Compare(A, LAMBDA v : Member(v, t.args[3], env, sc, 12), LAMBDA v : v.k = "str" /\ v.s \in PossibleTypes(S, a), "type-resolver-result", ctx)
                          : a \in abstracts}
 =============================================================================
